@@ -39,6 +39,7 @@ def shards(tier, seed):
             for j in range(k):
                 out.append({"name": f"triples:{cid}:{j}", "mode": "triples", "cal": cid, "ylo": cal.min_year + j * stepy, "yhi": min(cal.max_year, cal.min_year + (j + 1) * stepy - 1)})
     out.append({"name": "factory-spellings", "mode": "factories", "n": 4 if tier == "quick" else 24})
+    out.append({"name": "cross-calendar", "mode": "cross", "n": 300 if tier == "quick" else 6000})
     return out
 
 
@@ -344,6 +345,40 @@ def run_triples(ctx, cid, ylo, yhi):
     ctx.sample({"kind": "triple", "cal": cid, "ymd": [ylo, 1, 1]})
 
 
+def run_cross(ctx, n):
+    """The same (year, month, day) numbers through several calendars back to back in one process (the two Hebrew numberings, which share a
+    calculator class, always among them): day number, day of year and the way back are what each calendar answers when asked on its own."""
+    from pyoda_time import LocalDate
+    from vf import gen
+    rng = ctx.rng
+    cals = gen.calendars()
+    heb = [c for c in cals if c.id.startswith("Hebrew")]
+    def facts(cal, y, m, d):
+        try:
+            x = LocalDate(y, m, d, cal)
+            dn = gen.day_public(x)
+            back = gen.ymd(LocalDate(1970, 1, 1).plus_days(dn).with_calendar(cal)) if False else gen.ymd(gen.date_of(dn, cal))
+            return (dn, x.day_of_year, back, x.day_of_week.value)
+        except Exception as e:  # noqa: BLE001
+            return ("raised", type(e).__name__)
+    for _ in range(n):
+        y = rng.choice([5400, 5784, 1400, 2024, rng.randint(2, 9000)]); m = rng.randint(1, 13); d = rng.choice([1, 15, 29, 30, rng.randint(1, 30)])
+        order = heb + rng.sample([c for c in cals if c not in heb], 4)
+        rng.shuffle(order)
+        alone = {}
+        for cal in order:      # each calendar on its own: a neutral question in another year first, so that whatever is remembered is its own
+            facts(cal, max(cal.min_year + 1, min(cal.max_year - 1, y + 7)), 1, 1)
+            alone[cal.id] = facts(cal, y, m, d)
+        for rounds in range(2):
+            for cal in order:
+                got = facts(cal, y, m, d)
+                ctx.ev(); ctx.count("cross_calendar"); ctx.key(("cross-same-numbers", cal.id))
+                if got != alone[cal.id]:
+                    ctx.V(f"C01:cross-calendar-same-numbers:{cal.id.split()[0]}", f"{cal.id} {y}-{m}-{d}: (day number, day of year, way back, weekday) = {got} right after another calendar was asked about the same numbers; on its own it answers {alone[cal.id]}",
+                          {"kind": "cross", "cal": cal.id, "ymd": [y, m, d]}, got, alone[cal.id])
+    ctx.sample({"kind": "cross", "n": n})
+
+
 def run(ctx, shard):
     for k in REQUIRED["any"]:
         ctx.counters.setdefault(k, 0)
@@ -369,6 +404,8 @@ def run(ctx, shard):
                 ctx.V(f"C01:factory-spelling:{pb[1]}", f"in a fresh interpreter whose first use of the calendar is CalendarSystem.get_{pb[0]} (plain numbers as arguments): {pb[1:]}", {"kind": "factories", "seed": sd}, pb)
         ctx.sample({"kind": "factories", "children": shard["n"]})
         return
+    if mode == "cross":
+        run_cross(ctx, shard["n"]); return
     cid = shard["cal"]
     if mode == "edges":
         run_edges(ctx, cid)
